@@ -346,15 +346,18 @@ func init() {
 		"(github.com/inconshreveable/log15.Logger).Info", "(github.com/inconshreveable/log15.Logger).Debug", "(github.com/inconshreveable/log15.Logger).Warn",
 		"(github.com/inconshreveable/log15.Logger).Error", "(github.com/inconshreveable/log15.Logger).Crit", "(github.com/inconshreveable/log15.Logger).New",
 		"(common.Logger).Info", "(common.Logger).Debug", "(common.Logger).Warn", "(common.Logger).Error", "(common.Logger).Crit", "(common.Logger).New",
-		"fmt.Sprintf", "fmt.Sprint", "fmt.Println", "fmt.Printf", "fmt.Sprintln", "time.Now", "time.Since", "(time.Time).Sub", "(time.Time).Add", "time.Unix",
+		"fmt.Sprintf", "fmt.Sprint", "fmt.Println", "fmt.Printf", "fmt.Sprintln", "regexp.MatchString", "(*encoding/base64.Encoding).DecodeString", "time.Now", "time.Since", "(time.Time).Sub", "(time.Time).Add", "time.Unix",
 		"(github.com/inconshreveable/log15.Logger).Trace", "(time.Duration).Seconds",
 		"(*sync.WaitGroup).Add", "(*sync.WaitGroup).Done", "(*sync.WaitGroup).Wait", "runtime/debug.Stack", "strings.ToLower", "strings.ToUpper",
 		"encoding/hex.EncodeToString", "strconv.Itoa", "strconv.FormatUint", "strconv.FormatInt"} {
 		reg(n, nil, nop)
 	}
-	// ABI decoding into a caller-supplied pointer (reflection-driven, not verified): the pointee receives an unspecified value
-	// of its type, the result is an unspecified error; nothing else changes. The decoded value is a function of (method name,
-	// input bytes) only - stated where needed by the contracts through abidec(); here it is simply unconstrained.
+	// ABI encoding/decoding (reflection-driven, NOT verified). ASSUMED: both are deterministic functions of their inputs.
+	//   Unpack*(v, name, data): every leaf of *v becomes abidec_<Type>_<Field>(name, bytesval(data)); nothing else changes; the
+	//     error is nil iff abiok(name, bytesval(data)).  (On a failed decode the model still writes those values; every caller
+	//     returns at once on error.)
+	//   Pack*(name, args...): bytesval(result) = abipack_<sorts>(name, args by value).
+	// The uninterpreted functions are visible to specifications as spec functions of the same names (abidec_..., abipack_...).
 	for _, n := range []string{"UnpackMethod", "UnpackVariable"} {
 		nm := "(" + modPath + "/vm/abi.ABIContract)." + n
 		outPtrFns[nm] = 1
@@ -370,28 +373,53 @@ func init() {
 				return fr.freshResult(cc.Signature(), "abi.unpack"), st
 			}
 			p := fr.val(st, mi.X)
-			var facts []*Term
-			fv := freshVal(pt.Elem(), "abi.unpacked", &facts)
-			for _, f := range facts {
-				fr.C.addFact(f)
-			}
-			// a nil target makes the decoder return an error (reflect: not a pointer / nil pointer); with a non-nil one it writes
 			if p.Cell != nil {
 				unsup("abi unpack into a local cell")
 			}
+			in := a[3]
+			bv := fr.C.bytesVal(Select(st.heapGet("S:byte", SArr(SInt, SArr(SInt, SInt))), in.X), in.Off, in.Len)
+			tn := tstr(pt.Elem())
+			if k := strings.LastIndex(tn, "."); k >= 0 {
+				tn = tn[k+1:]
+			}
+			fv := fr.abiDecoded(st, pt.Elem(), tn, a[2].X, bv)
 			fr.store(st, p, pt.Elem(), fv)
-			// whatever the decoder hands out (slices, big integers) exists by the time it returns
 			na := Fresh("alloc", SInt)
 			nonNegSyms[na.Name] = true
 			fr.C.addFact(Le(st.Alloc, na))
 			st.Alloc = na
 			fr.C.allocFacts(fv, st.Alloc)
-			return fr.freshResult(cc.Signature(), "abi.unpack"), st
+			e := Fresh("abi.err", SInt)
+			fr.C.addFact(Eq(Eq(e, Num(0)), App("spec!abiok", SBool, a[2].X, bv)))
+			return &Val{K: KIface, T: res0(cc), X: e}, st
 		})
 	}
-	for _, n := range []string{"UnpackEmptyMethod", "PackMethod", "PackVariable"} {
-		reg("("+modPath+"/vm/abi.ABIContract)."+n, nil, func(fr *Frame, st *State, a []*Val, cc *ssa.CallCommon, pos token.Pos) (*Val, *State) {
-			return fr.freshResult(cc.Signature(), "abi.pack"), st
+	reg("("+modPath+"/vm/abi.ABIContract).UnpackEmptyMethod", nil, func(fr *Frame, st *State, a []*Val, cc *ssa.CallCommon, pos token.Pos) (*Val, *State) {
+		in := a[2]
+		bv := fr.C.bytesVal(Select(st.heapGet("S:byte", SArr(SInt, SArr(SInt, SInt))), in.X), in.Off, in.Len)
+		e := Fresh("abi.err", SInt)
+		fr.C.addFact(Eq(Eq(e, Num(0)), App("spec!abiok", SBool, a[1].X, bv)))
+		return &Val{K: KIface, T: res0(cc), X: e}, st
+	})
+	for _, n := range []string{"PackMethod", "PackVariable"} {
+		reg("("+modPath+"/vm/abi.ABIContract)."+n, []string{"S:byte"}, func(fr *Frame, st *State, a []*Val, cc *ssa.CallCommon, pos token.Pos) (*Val, *State) {
+			rt := cc.Signature().Results()
+			ln := Fresh("abi.packed#len", SInt)
+			fr.C.addFact(Le(Num(0), ln))
+			fr.C.addFact(Le(ln, Pow2(40)))
+			out := fr.makeSlice(st, rt.At(0).Type(), ln, ln)
+			// content: unspecified bytes
+			key := "S:byte"
+			hp := st.heapGet(key, SArr(SInt, SArr(SInt, SInt)))
+			content := Fresh("abi.packed#content", SArr(SInt, SInt))
+			st.heapSet(key, Store(hp, out.X, content))
+			if args, sig, ok := fr.packArgs(st, cc.Args[2]); ok {
+				bv := fr.C.bytesVal(content, Num(0), ln)
+				fr.C.addFact(Eq(bv, App("spec!abipack_"+sig, SInt, append([]*Term{a[1].X}, args...)...)))
+			}
+			var facts []*Term
+			ev := freshVal(rt.At(1).Type(), "abi.packerr", &facts)
+			return &Val{K: KTuple, T: rt, Fs: []*Val{out, ev}}, st
 		})
 	}
 	// time.Time: an instant is identified by an uninterpreted nanosecond count of its (wall, ext) fields
@@ -925,4 +953,151 @@ func (c *Ctx) evalInitExpr(e ast.Expr, pkg *packages.Package, t types.Type, name
 
 func init() {
 	_ = fmt.Sprintf
+}
+
+
+// abiDecoded builds the value an ABI decoder writes into a target of type t: a deterministic function of (name, input bytes).
+func (fr *Frame) abiDecoded(st *State, t types.Type, path string, name, bv *Term) *Val {
+	c := fr.C
+	fn := "spec!abidec_" + path
+	switch kindOf(t) {
+	case KStruct:
+		stt := under(t).(*types.Struct)
+		v := &Val{K: KStruct, T: t}
+		for i := 0; i < stt.NumFields(); i++ {
+			f := stt.Field(i)
+			sub := path + "_" + f.Name()
+			if f.Embedded() {
+				sub = path // promoted fields keep the outer parameter type's name space
+				if n := namedOf(f.Type()); n != nil {
+					sub = n.Obj().Name()
+				}
+			}
+			v.Fs = append(v.Fs, fr.abiDecoded(st, f.Type(), sub, name, bv))
+		}
+		return v
+	case KInt:
+		x := App(fn, SInt, name, bv)
+		if lo, hi, ok := intRange(t); ok {
+			c.addFact(And(Le(lo, x), Le(x, hi)))
+		}
+		return &Val{K: KInt, T: t, X: x}
+	case KBool:
+		return boolVal(App(fn, SBool, name, bv))
+	case KStr:
+		return &Val{K: KStr, T: t, X: App(fn, SStr, name, bv)}
+	case KArr:
+		if at, ok := under(t).(*types.Array); ok && sortOf(t) != SInt && at.Len() <= 64 && kindOf(at.Elem()) == KInt {
+			v := &Val{K: KArr, T: t, X: App(fn+"_arr", sortOf(t), name, bv)}
+			c.addFact(Eq(arrAsInt(v), App(fn, SInt, name, bv))) // the specification-level value of the array
+			return v
+		}
+	case KPtr:
+		if isBigIntPtr(t) {
+			return fr.newBig(st, t, App(fn, SInt, name, bv))
+		}
+	case KSlice:
+		if et := tstr(under(t).(*types.Slice).Elem()); et == "byte" || et == "uint8" {
+			ln := App(fn+"_len", SInt, name, bv)
+			c.addFact(And(Le(Num(0), ln), Le(ln, Pow2(40))))
+			out := fr.makeSlice(st, t, ln, ln)
+			content := App(fn+"_bytes", SArr(SInt, SInt), name, bv)
+			hp := st.heapGet("S:byte", SArr(SInt, SArr(SInt, SInt)))
+			st.heapSet("S:byte", Store(hp, out.X, content))
+			return out
+		}
+	}
+	var facts []*Term
+	v := freshVal(t, "abi.unpacked."+path, &facts)
+	for _, f := range facts {
+		c.addFact(f)
+	}
+	return v
+}
+
+// packArgs reads the variadic arguments of a Pack call by value: integers, booleans, strings, byte arrays (also through a
+// pointer), byte slices (as abstract byte strings) and *big.Int (its value). ok is false when the argument list is not a
+// literal list at the call site or holds a kind that is not modelled.
+func (fr *Frame) packArgs(st *State, v ssa.Value) (args []*Term, sig string, ok bool) {
+	if cst, isC := v.(*ssa.Const); isC && cst.Value == nil {
+		return nil, "0", true // no arguments
+	}
+	sl, isS := v.(*ssa.Slice)
+	if !isS {
+		return nil, "", false
+	}
+	al, isA := sl.X.(*ssa.Alloc)
+	if !isA {
+		return nil, "", false
+	}
+	at, isArr := under(al.Type().(*types.Pointer).Elem()).(*types.Array)
+	if !isArr {
+		return nil, "", false
+	}
+	elems := make([]ssa.Value, at.Len())
+	for _, r := range *al.Referrers() {
+		ia, isIA := r.(*ssa.IndexAddr)
+		if !isIA {
+			continue
+		}
+		k, isK := ia.Index.(*ssa.Const)
+		if !isK {
+			return nil, "", false
+		}
+		for _, r2 := range *ia.Referrers() {
+			if sto, isSt := r2.(*ssa.Store); isSt && sto.Addr == ia {
+				elems[k.Int64()] = sto.Val
+			}
+		}
+	}
+	bytesHeap := func() *Term { return st.heapGet("S:byte", SArr(SInt, SArr(SInt, SInt))) }
+	for _, e := range elems {
+		mi, isMI := e.(*ssa.MakeInterface)
+		if !isMI {
+			return nil, "", false
+		}
+		x := fr.val(st, mi.X)
+		t := mi.X.Type()
+		switch x.K {
+		case KInt:
+			args, sig = append(args, x.X), sig+"I"
+		case KBool:
+			args, sig = append(args, x.X), sig+"B"
+		case KStr:
+			args, sig = append(args, x.X), sig+"S"
+		case KArr:
+			if at, ok := under(t).(*types.Array); !ok || sortOf(t) == SInt || at.Len() > 64 || kindOf(at.Elem()) != KInt {
+				return nil, "", false
+			}
+			args, sig = append(args, arrAsInt(x)), sig+"I"
+		case KSlice:
+			if tstr(under(t).(*types.Slice).Elem()) != "byte" && tstr(under(t).(*types.Slice).Elem()) != "uint8" {
+				return nil, "", false
+			}
+			args, sig = append(args, fr.C.bytesVal(Select(bytesHeap(), x.X), x.Off, x.Len)), sig+"I"
+		case KPtr:
+			if isBigIntPtr(t) {
+				args, sig = append(args, bigval(st, x.X)), sig+"I"
+				continue
+			}
+			el := under(t).(*types.Pointer).Elem()
+			switch kindOf(el) {
+			case KArr:
+				if at := under(el).(*types.Array); x.Cell != nil || sortOf(el) == SInt || at.Len() > 64 || kindOf(at.Elem()) != KInt {
+					return nil, "", false
+				}
+				args, sig = append(args, arrAsInt(fr.load(st, x, el))), sig+"I"
+			case KStr:
+				if x.Cell != nil {
+					return nil, "", false
+				}
+				args, sig = append(args, fr.load(st, x, el).X), sig+"S"
+			default:
+				return nil, "", false
+			}
+		default:
+			return nil, "", false
+		}
+	}
+	return args, sig, true
 }
